@@ -438,7 +438,7 @@ class TextOracle(object):
     @staticmethod
     def lines(case):
         term = term_of(case)
-        return ['JS ' + term, 'MD ' + term, 'MDS ' + term]
+        return ['JS ' + term, 'MD ' + term, 'MDS ' + term, 'MDE ' + term]
 
     @staticmethod
     def impl(case):
@@ -449,7 +449,7 @@ class TextOracle(object):
         pins = sorted(cls.__module__ + '.' + cls.__qualname__ for cls in pinned_classes())
         clear_pins()
         mds = md + ' ' + (','.join(pins).encode('utf-8').hex() or '-') if md.startswith('OK') else md
-        return [js, md, mds]
+        return [js, md, mds, text_line(lambda: markdown_with_probe(obj))]
 
     @staticmethod
     def prop(case):
@@ -514,6 +514,25 @@ def check_set_pair(case):
                  'equal objects whose {} sets were filled in the orders {} and {} serialise differently: {} vs {}'.format(
                      case['enum'].split(':')[1], case['a'], case['b'], ja if ja != jb else repr(ma), jb if ja != jb else repr(mb)))]
     return []
+
+
+class _Probe(object):
+    """an application's encoder: every leaf text t is rendered as <<t>>"""
+    def __call__(self, obj, level):
+        return False, '<<' + str(obj) + '>>'
+
+
+def markdown_with_probe(obj):
+    """as_markdown() with the probe encoder installed on Serializable, from a clean class state"""
+    _, _, _, Serializable = _imports()
+    saved = Serializable.__dict__['post_text_encoder']
+    clear_pins()
+    Serializable.post_text_encoder = _Probe()
+    try:
+        return impl_markdown(obj)
+    finally:
+        Serializable.post_text_encoder = saved
+        clear_pins()
 
 
 def check_encoder_effect(obj):
